@@ -262,3 +262,134 @@ def c15_coq_case(tree, rec, cid):
     obs = "%s ++ [(%d, %s)]" % (obs_dst, 20 + i, tcell)
     fn = "fail" if rec["mode"] == "error" else "crash"
     return "(%d, (%s %s %d %d None %s, %s))" % (cid, fn, jobs, i, n, prior, obs)
+
+
+# ------------------------------------------------------------------ C16: agents x options x prior states
+
+def registry_from_table():
+    """agent rows from coq/Agents_gen.v (regenerated from the source in this run)"""
+    txt = open(os.path.join(vlib.COQ, "Agents_gen.v")).read()
+    rows = re.findall(r'a_type := "([^"]*)"; a_name := "([^"]*)"; a_src := "([^"]*)"; a_skill := "([^"]*)"; a_proj := "([^"]*)"; a_user := "([^"]*)"', txt)
+    readme = re.search(r"Definition readme_agents[^\[]*\[(.*?)\]\.", txt, re.S)
+    names = re.findall(r'\("[^"]*", "([^"]*)"\)', readme.group(1)) if readme else []
+    return [dict(type=r[0], name=r[1], src=r[2], skill=r[3], proj=r[4], user=r[5]) for r in rows], names
+
+
+C16_PRIORS = ["absent", "older", "same_odd", "unrelated", "base_is_file"]
+
+
+def c16_runs(tier):
+    kessoku = vlib.build_kessoku()
+    tree = embedded_tree()
+    agents, readme_names = registry_from_table()
+    root = os.path.join(vlib.scratch(), "c16")
+    jobs = []
+    k = 0
+    opts = ["default", "user", "path_rel", "path_abs", "path_user"]
+    for a in agents:
+        for o in opts:
+            for pr in C16_PRIORS:
+                k += 1
+                jobs.append((k, a, o, pr))
+    def one(job):
+        k, a, o, pr = job
+        work = os.path.join(root, "w%d" % k)
+        home = os.path.join(work, "home")
+        cwd = os.path.join(work, "proj")
+        other = os.path.join(work, "elsewhere")
+        for d in (home, cwd, other):
+            os.makedirs(d)
+        with open(os.path.join(home, "keep.txt"), "w") as f:
+            f.write("home file\n")
+        with open(os.path.join(cwd, "main.go"), "w") as f:
+            f.write("package main\n")
+        args = [a["name"]]
+        custom = ""
+        user = o in ("user", "path_user")
+        if o == "path_rel":
+            custom = "custom/rel"
+        elif o in ("path_abs", "path_user"):
+            custom = os.path.join(other, "abs")
+        if custom:
+            args += ["--path", custom]
+        if user:
+            args += ["--user"]
+        if custom:
+            base = custom if custom.startswith("/") else os.path.join(cwd, custom)
+        elif user:
+            base = os.path.join(home, a["user"])
+        else:
+            base = os.path.join(cwd, a["proj"])
+        skill = os.path.join(base, a["skill"])
+        # prior state
+        if pr == "older":
+            prepare_prior(base, "older_modes", tree)
+        elif pr == "same_odd":
+            # an older install with identical content but odd modes, and one file that is a symlink to an identical copy
+            for i, (rel, data) in enumerate(tree):
+                p = os.path.join(skill, rel)
+                os.makedirs(os.path.dirname(p), exist_ok=True)
+                if i == 1:
+                    tgt = os.path.join(other, "copy-%d" % i)
+                    open(tgt, "wb").write(data)
+                    os.symlink(tgt, p)
+                else:
+                    open(p, "wb").write(data)
+                    os.chmod(p, [0o600, 0o644, 0o666, 0o400][i % 4])
+        elif pr == "unrelated":
+            os.makedirs(os.path.join(skill, "references"), exist_ok=True)
+            open(os.path.join(skill, "MINE.md"), "w").write("user notes\n")
+            open(os.path.join(base, "sibling.txt"), "w").write("sibling\n")
+        elif pr == "base_is_file":
+            os.makedirs(os.path.dirname(base), exist_ok=True)
+            open(base, "w").write("i am a file\n")
+        before = snapshot(work)
+        env = dict(os.environ, HOME=home, GOMAXPROCS="2")
+        rc, out, err = vlib.run([kessoku, "llm-setup"] + args, cwd=cwd, env=env, timeout=60)
+        after = snapshot(work)
+        m = re.search(r"Skills installed to: (.*)", out)
+        rec = dict(k=k, agent=a["name"], opt=o, prior=pr, rc=rc, stdout=out[-300:], stderr=err[-300:], reported=m.group(1).strip() if m else None,
+                   expected_dir=os.path.relpath(skill, work), work=work, custom=custom, user=user, home=home, cwd=cwd, before=before, after=after)
+        shutil.rmtree(work, ignore_errors=True)
+        return rec
+    with ThreadPoolExecutor(max_workers=14) as ex:
+        recs = list(ex.map(one, jobs))
+    rc, helpout, helperr = vlib.run([kessoku, "llm-setup", "--help"], timeout=60)
+    return tree, agents, readme_names, recs, helpout + helperr
+
+
+def c16_oracle(tree, rec):
+    probs = []
+    before, after = rec["before"], rec["after"]
+    exp = rec["expected_dir"]
+    if rec["prior"] == "base_is_file":
+        if rec["rc"] == 0:
+            probs.append("base path is a file but the installer exited 0")
+        if before != after:
+            ch = [p for p in set(before) | set(after) if before.get(p) != after.get(p)]
+            probs.append("installation failed but the tree changed: %s" % ch[:5])
+        return probs
+    if rec["rc"] != 0:
+        probs.append("installer failed: %s" % rec["stderr"][-200:])
+        return probs
+    want = {}
+    for rel, data in tree:
+        want[os.path.join(exp, rel)] = ("file", hashlib.sha256(data).hexdigest()[:16], 0o644, len(data))
+    for p, v in want.items():
+        if after.get(p) != v:
+            probs.append("%s is %s, expected a regular file with the embedded content and mode 0644" % (p, after.get(p)))
+    if rec["reported"] is None or os.path.relpath(rec["reported"], rec["work"]) != exp:
+        probs.append("reported installation directory %s, documented location is %s" % (rec["reported"], exp))
+    # nothing else created or modified, apart from missing parent directories of the skill directory
+    for p in set(before) | set(after):
+        if p in want:
+            continue
+        b, a = before.get(p), after.get(p)
+        if b == a:
+            continue
+        if b is None and a and a[0] == "dir" and (exp + os.sep).startswith(p + os.sep):
+            continue                      # created ancestor (or the skill directory itself)
+        if b is None and a and a[0] == "dir" and p.startswith(exp + os.sep):
+            continue                      # sub-directory of the tree
+        probs.append("path outside the installed tree created or modified: %s: %s -> %s" % (p, b, a))
+    return probs
